@@ -22,6 +22,7 @@ RULESETS = {
     'nested': [('a/b/*', 'rc', None, 'tag'), ('a/*', 'beta', None, 'commit')],
     'shadow': [('a/*', 'beta', None, 'commit'), ('a/b/*', 'rc', None, 'tag'), ('ab', 'rc', 7, 'tag')],
     'no_star': [('m', 'rc', 3, 'tag')],
+    'exact_after_wildcard': [('a/*', 'beta', None, 'commit'), ('a/b', 'rc', 7, 'tag'), ('*', 'alpha', None, 'commit'), ('x', 'rc', 2, 'tag')],
 }
 DEFAULT_RULES = [('develop', 'beta', 1, 'commit'), ('release/*', 'rc', None, 'tag'), ('*', 'alpha', None, 'commit')]
 
@@ -210,7 +211,7 @@ def path_hash(ctx, arg):
             viol('hash_digits', m, 'hash_int result is not plain digits without leading zero / not deterministic')
             return
     # every documented length yields a value the pipeline accepts (Template<u32>: parse::<u32>)
-    if not allow0:
+    if not allow0 and length <= 10:
         from models_fmt import parse_int
         pr = parse_int(I, out, 'u32')
         if pr.variant != 0:
@@ -223,7 +224,7 @@ def rule_args(tier):
     quick = tier == 'quick'
     N = 5 if quick else 7
     out = []
-    for rs in ('short', 'nested', 'shadow', 'no_star'):
+    for rs in ('short', 'nested', 'shadow', 'no_star', 'exact_after_wildcard'):
         for n in range(0, N + 1):
             out.append(dict(rules=rs, branch=['PATH'] * n, num_flag=(n % 2 == 0)))
         out.append(dict(rules=rs, branch=None))
@@ -249,7 +250,7 @@ def rule_args(tier):
 def hash_args(tier):
     quick = tier == 'quick'
     out = []
-    for length in range(1, 11):
+    for length in list(range(1, 11)) + [19, 20, 21, 24]:
         for n in ((1, 2) if quick else (0, 1, 2, 3)):
             out.append((n, length, None))
         out.append((1, length, True))
